@@ -2,6 +2,9 @@ package main
 
 // The real schema of streams (c) and (d).
 //
+//	interface Named { f: String }   union U = Obj | Other   type Other implements Named { as Obj without nn / no }
+//	every object type also has: il: [Named]  ill: [[Named]]  iln: [[Named!]!]  u: U  ul: [U]  ull: [[U]]
+//	(Named dispatches by ResolveType, U by the members' IsTypeOf; the concrete type of an abstract position is a hash of its address)
 //	interface Named { f: String }
 //	type Obj implements Named { f: String  g(z: Int): Int  b(x: Int, r: Int!): String  nn: String!  li: [Int!]
 //	                            o: Obj  no: Obj!  l: [Obj]  ll: [[Obj]]  i: Named }
@@ -23,13 +26,27 @@ import (
 	"verif/harness/hx"
 )
 
-type node struct{ addr string }
+// node is the source value of every object position; typ is its concrete type ("Obj" or "Other").
+type node struct {
+	addr    string
+	typ     string
+	absList bool // element of a list of interface / union type
+}
+
+// concrete picks the runtime type of an abstract position from its address.
+func concrete(w *world, addr string) string {
+	if w.h(addr+"#type")%2 == 0 {
+		return "Obj"
+	}
+	return "Other"
+}
 
 type world struct {
-	seed   uint64
-	failed []string // addresses at which a failure was produced, in execution order
-	calls  int      // resolver invocations
-	modes  map[string]int
+	seed       uint64
+	failed     []string // addresses at which a failure was produced, in execution order
+	calls      int      // resolver invocations
+	curAbsList bool     // the resolver running now has an element of an abstract-typed list as its source
+	modes      map[string]int
 	// addresses whose resolver returned or panicked with a hand-built *gqlerrors.Error POINTER carrying foreign
 	// nodes and a foreign path (the executor's pass-through for its own re-thrown errors lets these through)
 	foreignPtr []string
@@ -46,6 +63,9 @@ func (w *world) h(addr string) uint64 {
 func (w *world) fail(addr, mode string) {
 	w.failed = append(w.failed, addr)
 	w.modes[mode]++
+	if w.curAbsList {
+		w.modes["(failure directly below an element of a list of interface/union type)"]++
+	}
 }
 
 func keyOf(p graphql.ResolveParams) string {
@@ -59,8 +79,10 @@ func keyOf(p graphql.ResolveParams) string {
 func addrOf(p graphql.ResolveParams) string {
 	theWorld.calls++
 	parent := ""
+	theWorld.curAbsList = false
 	if n, ok := p.Source.(*node); ok && n != nil {
 		parent = n.addr
+		theWorld.curAbsList = n.absList
 	}
 	return parent + "/" + keyOf(p)
 }
@@ -214,7 +236,7 @@ func nonNullLeafResolver(p graphql.ResolveParams) (interface{}, error) {
 	return nil, nil
 }
 
-func objResolver(nonNull bool) graphql.FieldResolveFn {
+func objResolver(nonNull bool, abstract bool) graphql.FieldResolveFn {
 	return func(p graphql.ResolveParams) (interface{}, error) {
 		w := theWorld
 		a := addrOf(p)
@@ -227,41 +249,57 @@ func objResolver(nonNull bool) graphql.FieldResolveFn {
 			w.fail(a, "object-error")
 			return nil, errors.New("obj boom " + a)
 		}
-		return &node{addr: a}, nil
-	}
-}
-
-func listResolver(p graphql.ResolveParams) (interface{}, error) {
-	w := theWorld
-	a := addrOf(p)
-	h := w.h(a)
-	if h%13 == 0 {
-		w.fail(a, "list-error")
-		return nil, errors.New("list boom " + a)
-	}
-	n := int((h/13)%3) + 1
-	out := make([]interface{}, n)
-	for i := range out {
-		out[i] = &node{addr: fmt.Sprintf("%s/%d", a, i)}
-	}
-	return out, nil
-}
-
-func listListResolver(p graphql.ResolveParams) (interface{}, error) {
-	w := theWorld
-	a := addrOf(p)
-	h := w.h(a)
-	n := int(h%3) + 1
-	out := make([]interface{}, n)
-	for i := range out {
-		m := int((h>>(8*uint(i+1)))%3) + 1
-		inner := make([]interface{}, m)
-		for j := range inner {
-			inner[j] = &node{addr: fmt.Sprintf("%s/%d/%d", a, i, j)}
+		if abstract {
+			return &node{addr: a, typ: concrete(w, a)}, nil
 		}
-		out[i] = inner
+		return &node{addr: a, typ: "Obj"}, nil
 	}
-	return out, nil
+}
+
+func mkNode(w *world, addr string, abstract bool) *node {
+	if abstract {
+		return &node{addr: addr, typ: concrete(w, addr), absList: true}
+	}
+	return &node{addr: addr, typ: "Obj"}
+}
+
+// listResolver: [Obj] or, with abstract, [Named] / [U] whose elements get their concrete type from their own address.
+func listResolver(abstract bool) graphql.FieldResolveFn {
+	return func(p graphql.ResolveParams) (interface{}, error) {
+		w := theWorld
+		a := addrOf(p)
+		h := w.h(a)
+		if h%13 == 0 {
+			w.fail(a, "list-error")
+			return nil, errors.New("list boom " + a)
+		}
+		n := int((h/13)%3) + 1
+		out := make([]interface{}, n)
+		for i := range out {
+			out[i] = mkNode(w, fmt.Sprintf("%s/%d", a, i), abstract)
+		}
+		return out, nil
+	}
+}
+
+// listListResolver: [[Obj]], [[Named]], [[Named!]!], [[U]]
+func listListResolver(abstract bool) graphql.FieldResolveFn {
+	return func(p graphql.ResolveParams) (interface{}, error) {
+		w := theWorld
+		a := addrOf(p)
+		h := w.h(a)
+		n := int(h%2) + 1
+		out := make([]interface{}, n)
+		for i := range out {
+			m := int((h>>(8*uint(i+1)))%2) + 1
+			inner := make([]interface{}, m)
+			for j := range inner {
+				inner[j] = mkNode(w, fmt.Sprintf("%s/%d/%d", a, i, j), abstract)
+			}
+			out[i] = inner
+		}
+		return out, nil
+	}
 }
 
 func intListResolver(p graphql.ResolveParams) (interface{}, error) {
@@ -285,12 +323,32 @@ func buildSchema() (graphql.Schema, error) {
 	if err := initForeign(); err != nil {
 		return graphql.Schema{}, err
 	}
-	var objType *graphql.Object
+	var objType, otherType *graphql.Object
+	typeOf := func(v interface{}) string {
+		if n, ok := v.(*node); ok && n != nil {
+			return n.typ
+		}
+		return ""
+	}
+	// interface: dispatch by ResolveType
 	named := graphql.NewInterface(graphql.InterfaceConfig{
-		Name:        "Named",
-		Fields:      graphql.Fields{"f": &graphql.Field{Type: graphql.String}},
-		ResolveType: func(p graphql.ResolveTypeParams) *graphql.Object { return objType },
+		Name:   "Named",
+		Fields: graphql.Fields{"f": &graphql.Field{Type: graphql.String}},
+		ResolveType: func(p graphql.ResolveTypeParams) *graphql.Object {
+			if typeOf(p.Value) == "Other" {
+				return otherType
+			}
+			return objType
+		},
 	})
+	objType = graphql.NewObject(graphql.ObjectConfig{Name: "Obj", Interfaces: []*graphql.Interface{named},
+		IsTypeOf: func(p graphql.IsTypeOfParams) bool { return typeOf(p.Value) == "Obj" },
+		Fields:   graphql.Fields{"nn": &graphql.Field{Type: graphql.NewNonNull(graphql.String), Resolve: nonNullLeafResolver}}})
+	otherType = graphql.NewObject(graphql.ObjectConfig{Name: "Other", Interfaces: []*graphql.Interface{named},
+		IsTypeOf: func(p graphql.IsTypeOfParams) bool { return typeOf(p.Value) == "Other" },
+		Fields:   graphql.Fields{}})
+	// union: no ResolveType, dispatch by the members' IsTypeOf
+	union := graphql.NewUnion(graphql.UnionConfig{Name: "U", Types: []*graphql.Object{objType, otherType}})
 	common := func(t *graphql.Object) {
 		t.AddFieldConfig("f", &graphql.Field{Type: graphql.String, Resolve: leafResolver("v")})
 		t.AddFieldConfig("g", &graphql.Field{Type: graphql.Int, Resolve: leafResolver(7),
@@ -298,16 +356,21 @@ func buildSchema() (graphql.Schema, error) {
 		t.AddFieldConfig("b", &graphql.Field{Type: graphql.String, Resolve: leafResolver("b"),
 			Args: graphql.FieldConfigArgument{"x": &graphql.ArgumentConfig{Type: graphql.Int}, "r": &graphql.ArgumentConfig{Type: graphql.NewNonNull(graphql.Int)}}})
 		t.AddFieldConfig("li", &graphql.Field{Type: graphql.NewList(graphql.NewNonNull(graphql.Int)), Resolve: intListResolver})
-		t.AddFieldConfig("o", &graphql.Field{Type: objType, Resolve: objResolver(false)})
-		t.AddFieldConfig("l", &graphql.Field{Type: graphql.NewList(objType), Resolve: listResolver})
-		t.AddFieldConfig("ll", &graphql.Field{Type: graphql.NewList(graphql.NewList(objType)), Resolve: listListResolver})
-		t.AddFieldConfig("i", &graphql.Field{Type: named, Resolve: objResolver(false)})
+		t.AddFieldConfig("o", &graphql.Field{Type: objType, Resolve: objResolver(false, false)})
+		t.AddFieldConfig("l", &graphql.Field{Type: graphql.NewList(objType), Resolve: listResolver(false)})
+		t.AddFieldConfig("ll", &graphql.Field{Type: graphql.NewList(graphql.NewList(objType)), Resolve: listListResolver(false)})
+		t.AddFieldConfig("i", &graphql.Field{Type: named, Resolve: objResolver(false, true)})
+		t.AddFieldConfig("il", &graphql.Field{Type: graphql.NewList(named), Resolve: listResolver(true)})
+		t.AddFieldConfig("ill", &graphql.Field{Type: graphql.NewList(graphql.NewList(named)), Resolve: listListResolver(true)})
+		t.AddFieldConfig("iln", &graphql.Field{Type: graphql.NewList(graphql.NewNonNull(graphql.NewList(graphql.NewNonNull(named)))), Resolve: listListResolver(true)})
+		t.AddFieldConfig("u", &graphql.Field{Type: union, Resolve: objResolver(false, true)})
+		t.AddFieldConfig("ul", &graphql.Field{Type: graphql.NewList(union), Resolve: listResolver(true)})
+		t.AddFieldConfig("ull", &graphql.Field{Type: graphql.NewList(graphql.NewList(union)), Resolve: listListResolver(true)})
 	}
-	objType = graphql.NewObject(graphql.ObjectConfig{Name: "Obj", Interfaces: []*graphql.Interface{named},
-		Fields: graphql.Fields{"nn": &graphql.Field{Type: graphql.NewNonNull(graphql.String), Resolve: nonNullLeafResolver}}})
 	common(objType)
-	objType.AddFieldConfig("no", &graphql.Field{Type: graphql.NewNonNull(objType), Resolve: objResolver(true)})
+	common(otherType)
+	objType.AddFieldConfig("no", &graphql.Field{Type: graphql.NewNonNull(objType), Resolve: objResolver(true, false)})
 	query := graphql.NewObject(graphql.ObjectConfig{Name: "Query", Fields: graphql.Fields{}})
 	common(query)
-	return graphql.NewSchema(graphql.SchemaConfig{Query: query, Types: []graphql.Type{objType}})
+	return graphql.NewSchema(graphql.SchemaConfig{Query: query, Types: []graphql.Type{objType, otherType, union}})
 }
